@@ -15,9 +15,19 @@ to it up to the properties the file held as global attributes, a request that
 is documented as unsupported refused with the sha256 of the file unchanged.
 
 Correspondence: the Gallina model of the two-pass writer (C17/Model.v) is
-given the file before (netCDF4 view), the skeletons of the fields cfdm reads
-from it and of the fields appended, and must predict the outcome class and the
-file afterwards (dimensions, variables, attributes, reference attributes).
+given the file before (netCDF4 view), the write options, the skeletons of the
+fields cfdm reads from it and of the fields appended, and must predict the
+outcome class and the file afterwards (dimensions, variables, attributes,
+reference attributes, global attributes).  The same model run in mode 'w' must
+predict the file that exists before the appends; the hypothesis of
+C17_old_fields (`covers`) and the model reader's data variables are evaluated
+on the real re-read.
+
+The files appended to carry non-default global attributes (Conventions extras,
+file descriptors, requested / forced global attributes, attributes set by
+another tool with values equal to or different from the appended fields'
+properties); every global attribute (type, shape, values) is compared through
+netCDF4-python before and after each append.
 """
 import copy
 import json
@@ -940,7 +950,11 @@ def run(chk, model_ok):
         "data are opaque: equality of arrays is decided by the harness (shape, values, mask); numeric tolerance of "
         "cfdm.equals is not modelled (generated values differ by at least 1e-2)",
         "the fields re-read from the file before each append are an input of the model (cfdm.read is not modelled; "
-        "C01 covers it); the abstract reader of Model.v (data_vars / view) is only used to state C17_old_fields",
+        "C01 covers it); C17_old_fields is about the model's own reader (data_vars / view) under the hypothesis "
+        "`covers` on (file, re-read), which is evaluated for every in-model step (Run.check_covers), and the "
+        "model's choice of data variables is compared with the fields cfdm.read returns (Run.check_reader)",
+        "the file that exists before the appends is written with mode 'w' by the same model (Run.check_created: "
+        "whole file incl. global attributes), so both sides of the guard in _write_global_attributes are exercised",
         "a domain ancillary is never generated with the same properties, shape and data as a whole field "
         "(construct.equals(field, ignore_type=True) raises AttributeError in any write mode)",
         "netCDF-C / HDF5 behaviour (creating a dimension or variable whose name exists is an error) is modelled by "
